@@ -148,16 +148,20 @@ def deliver(tokenizer, source, delivery, on_token=None):
             if on_token:
                 on_token(t, late=False)
     else:
+        rets = (None, False, 0, True, "", [], "stop")
+
         def cb(data, start, end):
             out.append((data, start, end))
             if on_token:
                 on_token((data, start, end), late=False)
+            return rets[(start + end) % len(rets)]  # whatever a callback returns is its own business
 
         tokenizer.tokenize(source, callback=cb)
     return out
 
 
-PRIOR_USES = ("complete-list", "complete-generator", "partial-suspended", "partial-closed", "never-started", "closed-during-second-use")
+PRIOR_USES = ("complete-list", "complete-generator", "partial-suspended", "partial-closed", "never-started", "closed-during-second-use",
+              "target-generator-created-first")
 
 
 def parse_delivery(delivery):
@@ -214,6 +218,18 @@ def run(v, params, kind="tuple", delivery="list", on_token=None):
     frames, validator = FRAME_KINDS[kind](v)
     src = CountingSource(frames)
     tk = make_tokenizer(validator, params)
+    if use == "target-generator-created-first" and prior is not None:
+        # the generator for THIS stream is created first (not started), then the tokenizer does a complete run on another
+        # stream, and only then is the generator consumed
+        g = tk.tokenize(src, generator=True)
+        frames1, _ = FRAME_KINDS[kind](prior)
+        tk.tokenize(CountingSource(frames1))
+        tokens = []
+        for t in g:
+            tokens.append(tuple(t))
+            if on_token:
+                on_token(t, late=False)
+        return frames, tokens, src
     keep = earlier_use(tk, prior, kind, use, j) if prior is not None else None
     if use == "closed-during-second-use" and keep is not None:
         # the abandoned generator of the earlier use is finalised while the second run is under way (between two tokens)
